@@ -9,9 +9,9 @@
    this mirror is what the queue holds is a theorem (Proofs/PulseInv.v), not an assumption.
 
    The numeric maps have no exact Coq counterpart: decimal round(x, 5) in normalisePhase, the binary64
-   value of the time setFiringTime posts for (round(et, 5) before the repair F13, et itself after it: the
-   model is the same for both, the theorems only assume caller time <= answer <= bound of the exact
-   argument), phaseToState, stateToPhase and rng.random() are answered from an oracle list
+   value of the time setFiringTime posts for (et itself since the repair F13; the theorems only assume
+   caller time <= answer <= bound of the exact argument), phaseToState, stateToPhase and rng.random() are
+   answered from an oracle list
    held in the user state and consumed in call order; every request is logged with the argument
    the model computed (exactly, in Q) so that hypotheses on the answers can be stated and the
    arguments compared with the implementation's.  The clamp of normalisePhase is modelled.
@@ -148,15 +148,14 @@ Definition fire_node (t : Q) (n : Z) (st : pstate) : pstate :=
   let st2 := set_phase t n 0 (w1, snd st) in
   (set_sets (pw_bumping (fst st2)) (addz n (pw_bumped (fst st2))) (fst st2), snd st2).
 
-(* cascade(t, n, m) *)
+(* cascade(t, n, m): the test for "already synchronised" is on the PHASE (repair of the defect that it was on
+   phaseToState(phase), which is not exactly 1.0 at phase 1.0 for every dissipation) *)
 Definition cascade (t : Q) (n m : Z) (st : pstate) : pstate :=
-  let '(phi, w1) := get_phase t m (fst st) in
-  let '(state, w2) := ask RS t phi w1 in                             (* getState *)
-  if is01 state then (w2, snd st)
+  let '(phi, w1) := get_phase t m (fst st) in                        (* phi = getPhase(t, m) *)
+  if is01 phi then (w1, snd st)
   else
-    let '(phi2, w3) := get_phase t m w2 in
-    let '(s2, w4) := ask RS t phi2 w3 in                             (* bumpPhase: phaseToState *)
-    let '(g, w5) := ask RG t (Qred (pc_coupling cfg + s2)) w4 in     (*            stateToPhase *)
+    let '(s2, w4) := ask RS t phi w1 in                              (* bumpPhase(phi): phaseToState *)
+    let '(g, w5) := ask RG t (Qred (pc_coupling cfg + s2)) w4 in     (*                 stateToPhase *)
     let '(newPhase, w6) := normalise_phase t g w5 in                 (*            normalisePhase *)
     let st7 := set_phase t m newPhase (w6, snd st) in
     let '(newState, w8) := get_phase t m (fst st7) in
